@@ -127,8 +127,16 @@ func stubHandshakeContext(c *tls.Conn, ctx context.Context) error {
 	return nil
 }
 
+var errTLSClose = errors.New("tls: close_notify could not be written (stub)")
+
 //verif:replace (*crypto/tls.Conn).Close
-func stubTLSClose(c *tls.Conn) error { ev("tlsConn.Close"); return nil }
+func stubTLSClose(c *tls.Conn) error {
+	ev("tlsConn.Close")
+	if vBool("tlsClose.fails") {
+		return errTLSClose
+	}
+	return nil
+}
 
 //verif:replace (*crypto/tls.Conn).ConnectionState
 func stubConnectionState(c *tls.Conn) tls.ConnectionState {
